@@ -21,7 +21,7 @@ def fmt_amount(n, cur):
     return '%s %s' % (format(n, 'f'), cur)
 
 
-def gen_ledger_text(rng, ntxn=None, with_errors=False):
+def gen_ledger_text(rng, ntxn=None, with_errors=False, conversions=True):
     """returns beancount source text"""
     ntxn = rng.range(3, 14) if ntxn is None else ntxn
     lines = ['option "title" "Generated"', 'option "operating_currency" "USD"', '']
@@ -48,6 +48,8 @@ def gen_ledger_text(rng, ntxn=None, with_errors=False):
         date = date + datetime.timedelta(days=rng.range(0, 40))
         kind = rng.weighted([('expense', 5), ('salary', 2), ('buy', 2), ('sell', 1), ('fx', 1), ('price', 2),
                              ('note', 1), ('event', 1), ('document', 1), ('padbal', 1), ('three', 2)])
+        if kind == 'fx' and not conversions:
+            kind = 'expense'
         if kind == 'price':
             cur = rng.choice(['ACME', 'EUR'])
             prices[cur] = prices[cur] + Decimal(rng.range(-20, 30)) / 10
@@ -135,7 +137,8 @@ def gen_ledger_text(rng, ntxn=None, with_errors=False):
                     lots.remove(lot)
                 price = prices['ACME']
                 posting('Assets:Broker:ACME', fmt_amount(-n, 'ACME'),
-                        ' {%s, %s} @ %s' % (fmt_amount(lot[1], 'USD'), lot[2].isoformat(), fmt_amount(price, 'USD')))
+                        (' {%s, %s} @ %s' % (fmt_amount(lot[1], 'USD'), lot[2].isoformat(), fmt_amount(price, 'USD')))
+                        if conversions else (' {%s, %s}' % (fmt_amount(lot[1], 'USD'), lot[2].isoformat())))
                 posting('Assets:Bank:Checking', fmt_amount(n * price, 'USD'))
                 posting('Income:Gains')
         elif kind == 'fx':
